@@ -19,7 +19,7 @@ cause is read off the project SOURCE (ast; nothing rattr computes): the class na
 defined (chain of enclosing block kinds) and what else binds its name:
 
     …[<position>;<binding>]     position: at:module | at:if-body | at:for-else | at:try-finally/while-else | … (the full chain), or
-                                          within:match-case | within:try-except-star (anywhere below such a block: K11m / K11t)
+                                          within:match-case | within:try-except-star (anywhere below such a block: K11m / K11t, fixed in /repo 6e8e4cc)
                                 binding : sole-binding | builtin-name | also-bound-by:class | bound-before-by:<def|import|assign|del>
                                           | bound-after-by:<…>
 """
@@ -263,7 +263,8 @@ UNBOUNDED_FAMILIES = (("match-case", "within:match-case"), ("trystar-", "within:
 def canonical_position(path):
     """The position component of the signature. A class anywhere below a `match` case / inside a `try … except*` statement is
     ONE class of inputs each (a syntactic condition: the outermost such block on the path decides; what lies around or below
-    it is in the violation's detail) — the two known findings K11m / K11t; every other position is spelled out in full."""
+    it is in the violation's detail) — the two findings K11m / K11t (fixed in /repo 6e8e4cc; the signatures stay, so a tree
+    without the fix, or a regression, reports exactly them); every other position is spelled out in full."""
     for p in path:
         for prefix, label in UNBOUNDED_FAMILIES:
             if p.startswith(prefix):
